@@ -563,8 +563,8 @@ def _families(ctx: Ctx) -> List[Tuple[str, dict]]:
             cases.append(("env-shipped", rig.gen_env_case(rng, ctx.scale(24, 96), "shipped:" + stem, mode)))
     # PrimaiteGame.step() itself (the third step pipeline; the environments do not call it): UC2 driven through the game loop, the RL
     # agent given a random action of its map before every step
-    for k in range(ctx.scale(2, 12)):
-        c = rig.gen_env_case(rng, ctx.scale(40, 128), "uc2", rng.choice(["asis", "dyadic"]))
+    for k in range(ctx.scale(2, 6)):
+        c = rig.gen_env_case(rng, ctx.scale(40, 96), "uc2", rng.choice(["asis", "dyadic"]))
         c["game_loop"] = True
         c.pop("reset_at", None)
         cases.append(("env-gameloop", c))
